@@ -4,11 +4,19 @@ package main
 //
 // Runtime monitor: random index directories are built from real shards (simple,
 // multi-shard, compound, sidecars, tombstones, .trash with old / fresh / future
-// mtimes, renamed repositories, *.tmp leftovers); the production cleanup() is run
-// for 1-4 rounds with an explicit, advancing `now`; the directory is snapshotted
-// before and after every round and the four clauses of the property statement
-// are judged on the two snapshots. Nothing is predicted: the oracle only states
-// which transitions the statement forbids.
+// mtimes, renamed repositories, repositories of different ids sharing one name,
+// *.tmp leftovers, orphaned sidecars); repository names are drawn so that simple
+// shard files sort before and after the compound-* files. The production
+// cleanup() is run for 1-8 rounds with an explicit, advancing `now`; between the
+// rounds the assignment changes and an "indexer" acts on the directory the way
+// the indexserver does (indexes assigned repositories that are not searchable,
+// metadata-only updates that leave a .meta sidecar, a new repository id taking
+// over the name of an old one). The directory is snapshotted before and after
+// every round and the four clauses of the property statement are judged on the
+// two snapshots. Nothing is predicted: the oracle only states which transitions
+// the statement forbids. The harness knows which repository every shard file was
+// built for (by content hash) and when cleanup moved a file into the trash; both
+// are used as ground truth next to what the shard metadata claims.
 
 import (
 	"bytes"
@@ -16,6 +24,7 @@ import (
 	"crypto/sha1"
 	"encoding/hex"
 	"fmt"
+	"hash/fnv"
 	"io"
 	"log"
 	"math/rand/v2"
@@ -24,6 +33,7 @@ import (
 	"path/filepath"
 	"sort"
 	"strings"
+	"sync"
 	"testing"
 	"time"
 
@@ -34,7 +44,10 @@ import (
 	"github.com/sourcegraph/zoekt/search"
 )
 
-const c32Marker = "ctwoneedle"
+const (
+	c32Marker  = "ctwoneedle"
+	c32Workers = 8 // directories are independent; the verdict of a case never depends on the schedule
+)
 
 // ---------------------------------------------------------------------------
 // snapshot of an index directory
@@ -50,7 +63,9 @@ type c32File struct {
 	Hash     string
 	Meta     string // content of the .meta sidecar ("" = none)
 	MTime    time.Time
-	Ents     []c32Ent
+	Born     time.Time // ground truth: when cleanup was seen moving this file into .trash (zero = not observed)
+	Ents     []c32Ent  // what the shard metadata (shard + sidecar) says
+	Content  []uint32  // ground truth: the repository ids this file was built for (nil = unknown content)
 	Compound bool
 	Err      string
 }
@@ -73,12 +88,52 @@ func (f *c32File) tomb(id uint32) bool {
 	return false
 }
 
+func (f *c32File) holds(id uint32) bool {
+	for _, c := range f.Content {
+		if c == id {
+			return true
+		}
+	}
+	return false
+}
+
+// since is the time the age of a trash entry is counted from: the moment cleanup
+// put it into the trash where the harness saw that, else the file's mtime.
+func (f *c32File) since() time.Time {
+	if !f.Born.IsZero() {
+		return f.Born
+	}
+	return f.MTime
+}
+
+// mislabelled: the metadata names other repository ids than the content was built for.
+func (f *c32File) mislabelled() bool {
+	if f.Content == nil || f.Err != "" {
+		return false
+	}
+	if len(f.Content) != len(f.Ents) {
+		return true
+	}
+	for _, e := range f.Ents {
+		if !f.holds(e.ID) {
+			return true
+		}
+	}
+	return false
+}
+
 type c32Snap struct {
 	Index, Trash           map[string]*c32File
 	Other, TrashOther      []string // every other directory entry (dirs end in "/")
 	aliveIdx, aliveTrash   map[uint32][]*c32File
 	tombIdx                map[uint32][]*c32File
+	hiddenTrash            map[uint32][]*c32File // trashed files built for the id whose metadata does not show the id alive
 	namesIdx, namesInTrash map[uint32]map[string]bool
+}
+
+func c32HashBytes(b []byte) string {
+	h := sha1.Sum(b)
+	return hex.EncodeToString(h[:6])
 }
 
 func c32HashFile(p string) string {
@@ -86,11 +141,12 @@ func c32HashFile(p string) string {
 	if err != nil {
 		return "unreadable:" + err.Error()
 	}
-	h := sha1.Sum(b)
-	return hex.EncodeToString(h[:6])
+	return c32HashBytes(b)
 }
 
-func c32ReadDir(dir string) (map[string]*c32File, []string) {
+func c32BornKey(f *c32File) string { return f.Base + "#" + f.Hash }
+
+func c32ReadDir(dir string, truth map[string]map[uint32][]string, born map[string]time.Time) (map[string]*c32File, []string) {
 	files := map[string]*c32File{}
 	var other []string
 	ents, err := os.ReadDir(dir)
@@ -125,6 +181,12 @@ func c32ReadDir(dir string) (map[string]*c32File, []string) {
 			for _, r := range repos {
 				f.Ents = append(f.Ents, c32Ent{ID: r.ID, Name: r.Name, Tomb: r.Tombstone})
 			}
+			if t, ok := truth[f.Hash]; ok {
+				f.Content = c32SortedIDs(t)
+			}
+			if born != nil {
+				f.Born = born[c32BornKey(f)]
+			}
 			files[n] = f
 			continue
 		}
@@ -137,11 +199,11 @@ func c32ReadDir(dir string) (map[string]*c32File, []string) {
 	return files, other
 }
 
-func c32TakeSnap(dir string) *c32Snap {
+func c32TakeSnap(dir string, truth map[string]map[uint32][]string, born map[string]time.Time) *c32Snap {
 	s := &c32Snap{aliveIdx: map[uint32][]*c32File{}, aliveTrash: map[uint32][]*c32File{}, tombIdx: map[uint32][]*c32File{},
-		namesIdx: map[uint32]map[string]bool{}, namesInTrash: map[uint32]map[string]bool{}}
-	s.Index, s.Other = c32ReadDir(dir)
-	s.Trash, s.TrashOther = c32ReadDir(filepath.Join(dir, ".trash"))
+		hiddenTrash: map[uint32][]*c32File{}, namesIdx: map[uint32]map[string]bool{}, namesInTrash: map[uint32]map[string]bool{}}
+	s.Index, s.Other = c32ReadDir(dir, truth, nil)
+	s.Trash, s.TrashOther = c32ReadDir(filepath.Join(dir, ".trash"), truth, born)
 	add := func(m map[uint32]map[string]bool, id uint32, n string) {
 		if m[id] == nil {
 			m[id] = map[string]bool{}
@@ -165,6 +227,11 @@ func c32TakeSnap(dir string) *c32Snap {
 			if !e.Tomb {
 				s.aliveTrash[e.ID] = append(s.aliveTrash[e.ID], f)
 				add(s.namesInTrash, e.ID, e.Name)
+			}
+		}
+		for _, id := range f.Content {
+			if !f.alive(id) {
+				s.hiddenTrash[id] = append(s.hiddenTrash[id], f)
 			}
 		}
 	}
@@ -203,8 +270,14 @@ func (f *c32File) line(where string, withTime bool) string {
 		h := sha1.Sum([]byte(f.Meta))
 		s += " +meta#" + hex.EncodeToString(h[:4])
 	}
+	if f.mislabelled() {
+		s += fmt.Sprintf(" BUILT-FOR=%v", f.Content)
+	}
 	if withTime {
 		s += " mtime=" + f.MTime.UTC().Format("2006-01-02T15:04:05.000000000Z")
+		if !f.Born.IsZero() && !f.Born.Equal(f.MTime) {
+			s += " trashed_at=" + f.Born.UTC().Format("2006-01-02T15:04:05.000000000Z")
+		}
 	}
 	if f.Err != "" {
 		s += " ERR=" + f.Err
@@ -232,43 +305,294 @@ func (s *c32Snap) listing() []string {
 }
 
 // ---------------------------------------------------------------------------
+// repository identities of a run
+
+// c32Ident is one repository known to the (simulated) frontend. Twin is the id of
+// another identity carrying the same Name (a repository deleted and re-created,
+// or renamed onto a name that was in use before); Alt is the name the repository
+// gets when a case renames it.
+type c32Ident struct {
+	ID   uint32
+	Name string
+	Alt  string
+	Twin uint32
+}
+
+// c32GenName draws a repository name. Shard files are named after the escaped
+// repository name, cleanup processes the files of a repository in file-name
+// order, and compound shards are called compound-<sha1>: half of the names sort
+// before "compound-", half after, some right at the boundary.
+func c32GenName(r *rand.Rand, id uint32) string {
+	switch r.IntN(14) {
+	case 0:
+		return fmt.Sprintf("0x%d", id)
+	case 1:
+		return fmt.Sprintf("3rd-party/r%d", id)
+	case 2:
+		return fmt.Sprintf("Acme/r%d", id)
+	case 3:
+		return fmt.Sprintf("a%d", id)
+	case 4:
+		return fmt.Sprintf("b.example.com/team/r%d", id)
+	case 5:
+		return fmt.Sprintf("cod/r%d", id)
+	case 6:
+		return fmt.Sprintf("compoun%d", id) // "compoun7_v16…" < "compound-…"
+	case 7:
+		return fmt.Sprintf("compound%d", id) // "compound7_v16…" > "compound-…"
+	case 8:
+		return fmt.Sprintf("compound_%d", id)
+	case 9:
+		return fmt.Sprintf("gh.example.com/org%d/r%d", r.IntN(3), id)
+	case 10:
+		return fmt.Sprintf("zz/r%d", id)
+	default:
+		return fmt.Sprintf("r%d", id)
+	}
+}
+
+func c32MakePool(pr *rand.Rand) []c32Ident {
+	var pool []c32Ident
+	seen := map[uint32]bool{}
+	newID := func() uint32 {
+		for {
+			id := uint32(1 + pr.IntN(4000))
+			if !seen[id] {
+				seen[id] = true
+				return id
+			}
+		}
+	}
+	for len(pool) < 40 {
+		id := newID()
+		a := c32Ident{ID: id, Name: c32GenName(pr, id)}
+		a.Alt = c32GenName(pr, id) + "-renamed"
+		if len(pool) < 26 {
+			// a second id under the same name
+			id2 := newID()
+			b := c32Ident{ID: id2, Name: a.Name, Alt: c32GenName(pr, id2) + "-renamed", Twin: id}
+			a.Twin = id2
+			pool = append(pool, a, b)
+			continue
+		}
+		pool = append(pool, a)
+	}
+	return pool
+}
+
+// ---------------------------------------------------------------------------
+// shard images
+//
+// Building a ShardBuilder allocates ~32 MB, so shard images are built once per
+// (repository id, name, version) and run, and written out wherever a case needs
+// them; merged compound shards are cached per ordered member list. The image is
+// a pure function of its key; files never are shared between cases.
+
+type c32Image struct {
+	once sync.Once
+	err  error
+	data []byte
+	hash string
+	docs []string
+}
+
+type c32CompoundImage struct {
+	once sync.Once
+	err  error
+	data []byte
+	hash string
+	base string
+	docs map[uint32][]string
+}
+
+var (
+	c32ImgMu     sync.Mutex
+	c32Images    = map[string]*c32Image{}
+	c32Compounds = map[string]*c32CompoundImage{}
+)
+
+var c32Epoch = time.Date(2024, 1, 1, 0, 0, 0, 0, time.UTC)
+
+func c32ImageKey(id uint32, name string, ver int) string {
+	return fmt.Sprintf("%d|%s|v%d", id, name, ver)
+}
+
+func c32ShardImage(id uint32, name string, ver int) (*c32Image, error) {
+	key := c32ImageKey(id, name, ver)
+	c32ImgMu.Lock()
+	im := c32Images[key]
+	if im == nil {
+		im = &c32Image{}
+		c32Images[key] = im
+	}
+	c32ImgMu.Unlock()
+	im.once.Do(func() {
+		hh := fnv.New64a()
+		hh.Write([]byte(key))
+		h := hh.Sum64()
+		tag := fmt.Sprintf("%06x", h&0xffffff)
+		repo := &zoekt.Repository{
+			ID: id, Name: name,
+			Branches:         []zoekt.RepositoryBranch{{Name: "HEAD", Version: "v" + tag}},
+			LatestCommitDate: c32Epoch.Add(-time.Duration((h>>24)%5000) * time.Hour),
+			RawConfig:        map[string]string{"public": "1"},
+		}
+		b, err := index.NewShardBuilder(repo)
+		if err != nil {
+			im.err = err
+			return
+		}
+		nd := 1 + int((h>>40)%3)
+		for k := 0; k < nd; k++ {
+			dn := fmt.Sprintf("s%s/doc%d.txt", tag, k)
+			content := fmt.Sprintf("%s repo %d build %s doc %d\nsecond line of %s\n", c32Marker, id, tag, k, name)
+			if err := b.Add(index.Document{Name: dn, Content: []byte(content), Branches: []string{"HEAD"}}); err != nil {
+				im.err = err
+				return
+			}
+			im.docs = append(im.docs, dn)
+		}
+		sort.Strings(im.docs)
+		var buf bytes.Buffer
+		if err := b.Write(&buf); err != nil {
+			im.err = err
+			return
+		}
+		im.data = buf.Bytes()
+		im.hash = c32HashBytes(im.data)
+	})
+	return im, im.err
+}
+
+func c32WriteFile(path string, data []byte) error {
+	tmp := path + ".c32build"
+	if err := os.WriteFile(tmp, data, 0o644); err != nil {
+		return err
+	}
+	return os.Rename(tmp, path)
+}
+
+type c32Member struct {
+	id   uint32
+	name string
+	tomb bool
+	ver  int
+}
+
+func c32MergedImage(members []c32Member, scratch string) (*c32CompoundImage, error) {
+	var keys []string
+	for _, m := range members {
+		keys = append(keys, c32ImageKey(m.id, m.name, m.ver))
+	}
+	key := strings.Join(keys, ";")
+	c32ImgMu.Lock()
+	ci := c32Compounds[key]
+	if ci == nil {
+		ci = &c32CompoundImage{}
+		c32Compounds[key] = ci
+	}
+	c32ImgMu.Unlock()
+	ci.once.Do(func() {
+		tmpd, err := os.MkdirTemp(scratch, "members-")
+		if err != nil {
+			ci.err = err
+			return
+		}
+		defer os.RemoveAll(tmpd)
+		var files []index.IndexFile
+		defer func() {
+			for _, f := range files {
+				f.Close()
+			}
+		}()
+		ci.docs = map[uint32][]string{}
+		for i, m := range members {
+			im, err := c32ShardImage(m.id, m.name, m.ver)
+			if err != nil {
+				ci.err = err
+				return
+			}
+			p := filepath.Join(tmpd, fmt.Sprintf("m%d.zoekt", i))
+			if err := c32WriteFile(p, im.data); err != nil {
+				ci.err = err
+				return
+			}
+			ci.docs[m.id] = im.docs
+			fh, err := os.Open(p)
+			if err != nil {
+				ci.err = err
+				return
+			}
+			inf, err := index.NewIndexFile(fh)
+			if err != nil {
+				ci.err = err
+				return
+			}
+			files = append(files, inf)
+		}
+		tmpName, dstName, err := index.Merge(tmpd, files...)
+		if err != nil {
+			ci.err = err
+			return
+		}
+		ci.data, ci.err = os.ReadFile(tmpName)
+		ci.base = filepath.Base(dstName)
+		ci.hash = c32HashBytes(ci.data)
+	})
+	return ci, ci.err
+}
+
+// ---------------------------------------------------------------------------
 // world: one generated directory and the record of what was built into it
 
 type c32Repo struct {
 	ID   uint32
 	Name string
+	Alt  string
+	Twin uint32
 	Kind string
-}
-
-type c32Member struct {
-	id      uint32
-	name    string
-	tomb    bool
-	variant string
+	Flip float64 // probability that the assignment of this repository changes between two rounds
 }
 
 type c32World struct {
-	r          *rand.Rand
-	dir        string
-	trash      string
-	scratch    string
-	now0       time.Time
-	pool       []c32Repo
-	generation string // distinguishes shards written between rounds from the initial ones
-	repos      []*c32Repo
-	feat       map[string]bool
-	recipe     []string
-	expDocs    map[string]map[uint32][]string // shard hash -> repo id -> sorted document names
-	usedIDs    map[uint32]bool
+	r         *rand.Rand
+	dir       string
+	trash     string
+	scratch   string
+	now0      time.Time
+	pool      []c32Ident
+	templates [][]c32Ident
+	repos     []*c32Repo
+	feat      map[string]bool
+	recipe    []string
+	expDocs   map[string]map[uint32][]string // shard hash -> repo id -> sorted document names (ground truth of the content)
+	born      map[string]time.Time           // base#hash of a trash entry -> `now` of the cleanup that moved it there
+	usedIDs   map[uint32]bool
+	ver       map[uint32]int
+	// repository names owning shard files in the index / the trash while the
+	// initial directory is generated (two ids may share a name, a directory
+	// cannot hold two files of one name)
+	idxNames, trashNames map[string]bool
 }
 
-func (w *c32World) nameOf(id uint32) string {
-	for _, rp := range w.pool {
-		if rp.ID == id {
-			return rp.Name
+func (w *c32World) snap() *c32Snap { return c32TakeSnap(w.dir, w.expDocs, w.born) }
+
+func (w *c32World) ident(id uint32) (c32Ident, bool) {
+	for _, ip := range w.pool {
+		if ip.ID == id {
+			return ip, true
 		}
 	}
-	return fmt.Sprintf("r%d", id)
+	return c32Ident{}, false
+}
+
+func (w *c32World) repo(id uint32) *c32Repo {
+	for _, rp := range w.repos {
+		if rp.ID == id {
+			return rp
+		}
+	}
+	return nil
 }
 
 func (w *c32World) note(format string, a ...any) {
@@ -279,85 +603,63 @@ func c32Base(name string, n int) string {
 	return fmt.Sprintf("%s_v%d.%05d.zoekt", url.QueryEscape(name), index.IndexFormatVersion, n)
 }
 
-func (w *c32World) newID() uint32 {
+// nextVer: every act of indexing a repository (initial index copy, initial trash
+// copy, compound member, re-index between rounds) produces different content.
+func (w *c32World) nextVer(id uint32) int {
+	v := w.ver[id]
+	w.ver[id] = v + 1
+	return v
+}
+
+func (w *c32World) addRepo(ip c32Ident, kind string) *c32Repo {
+	rp := &c32Repo{ID: ip.ID, Name: ip.Name, Alt: ip.Alt, Twin: ip.Twin, Kind: kind,
+		Flip: []float64{.1, .33, .33, .5, .7}[w.r.IntN(5)]}
+	w.usedIDs[ip.ID] = true
+	w.repos = append(w.repos, rp)
+	return rp
+}
+
+// pickIdent: a random unused identity; one time in four the twin (other id, same
+// name) of a repository that is already part of the directory.
+func (w *c32World) pickIdent() c32Ident {
+	if w.r.IntN(4) == 0 {
+		var c []c32Ident
+		for _, rp := range w.repos {
+			if ip, ok := w.ident(rp.Twin); ok && !w.usedIDs[ip.ID] {
+				c = append(c, ip)
+			}
+		}
+		if len(c) > 0 {
+			return c[w.r.IntN(len(c))]
+		}
+	}
 	for {
-		rp := w.pool[w.r.IntN(len(w.pool))]
-		if !w.usedIDs[rp.ID] {
-			w.usedIDs[rp.ID] = true
-			return rp.ID
+		ip := w.pool[w.r.IntN(len(w.pool))]
+		if !w.usedIDs[ip.ID] {
+			return ip
 		}
 	}
 }
 
-// Building a ShardBuilder allocates ~32 MB, so shard images are built once per
-// (repository id, name, variant) and run, and written out wherever a case needs
-// them. The image of a variant is fixed for the run; files never are shared
-// between cases.
-type c32Image struct {
-	data []byte
-	docs []string
-}
-
-var (
-	c32Images   = map[string]*c32Image{}
-	c32ImageRnd *rand.Rand
-	c32Serial   int
-)
-
-var c32Epoch = time.Date(2024, 1, 1, 0, 0, 0, 0, time.UTC)
-
-func c32ShardImage(id uint32, name, variant string) (*c32Image, error) {
-	key := fmt.Sprintf("%d|%s|%s", id, name, variant)
-	if im := c32Images[key]; im != nil {
-		return im, nil
+// sidecarFor writes the .meta sidecar of a simple shard the way mergeMeta does
+// (format 16 sidecars hold one repository object): same id, the given name, a
+// new rank.
+func (w *c32World) sidecarFor(p string, name string) error {
+	repos, _, err := index.ReadMetadataPath(p)
+	if err != nil || len(repos) != 1 {
+		return fmt.Errorf("harness: read back %s: %v", p, err)
 	}
-	c32Serial++
-	repo := &zoekt.Repository{
-		ID: id, Name: name,
-		Branches:         []zoekt.RepositoryBranch{{Name: "HEAD", Version: fmt.Sprintf("v%d", c32Serial)}},
-		LatestCommitDate: c32Epoch.Add(-time.Duration(c32ImageRnd.IntN(5000)) * time.Hour),
-		RawConfig:        map[string]string{"public": "1"},
-	}
-	b, err := index.NewShardBuilder(repo)
+	repos[0].Name = name
+	repos[0].Rank = uint16(w.r.IntN(1000))
+	tmp, dst, err := index.JsonMarshalRepoMetaTemp(p, repos[0])
 	if err != nil {
-		return nil, err
+		return err
 	}
-	im := &c32Image{}
-	nd := 1 + c32ImageRnd.IntN(3)
-	for k := 0; k < nd; k++ {
-		dn := fmt.Sprintf("s%d/doc%d.txt", c32Serial, k)
-		content := fmt.Sprintf("%s repo %d build %d doc %d\nsecond line of %s\n", c32Marker, id, c32Serial, k, name)
-		if err := b.Add(index.Document{Name: dn, Content: []byte(content), Branches: []string{"HEAD"}}); err != nil {
-			return nil, err
-		}
-		im.docs = append(im.docs, dn)
-	}
-	sort.Strings(im.docs)
-	var buf bytes.Buffer
-	if err := b.Write(&buf); err != nil {
-		return nil, err
-	}
-	im.data = buf.Bytes()
-	c32Images[key] = im
-	return im, nil
-}
-
-// writeShard writes one simple shard for (id, name, variant) to path and returns
-// its document names.
-func (w *c32World) writeShard(path string, id uint32, name, variant string) ([]string, error) {
-	im, err := c32ShardImage(id, name, variant)
-	if err != nil {
-		return nil, err
-	}
-	tmp := path + ".c32build"
-	if err := os.WriteFile(tmp, im.data, 0o644); err != nil {
-		return nil, err
-	}
-	return im.docs, os.Rename(tmp, path)
+	return os.Rename(tmp, dst)
 }
 
 // addSimple builds a simple shard in the index dir or the trash.
-func (w *c32World) addSimple(inTrash bool, base string, id uint32, name string, mtime time.Time, sidecarName string) error {
+func (w *c32World) addSimple(inTrash bool, base string, id uint32, name string, ver int, mtime time.Time, sidecarName string) error {
 	dir, where := w.dir, "index"
 	if inTrash {
 		dir, where = w.trash, ".trash"
@@ -369,24 +671,18 @@ func (w *c32World) addSimple(inTrash bool, base string, id uint32, name string, 
 	if _, err := os.Stat(p); err == nil {
 		return fmt.Errorf("harness: %s/%s exists already", where, base)
 	}
-	docs, err := w.writeShard(p, id, name, fmt.Sprintf("%s:%s:%s", where, base, w.generation))
+	// a new shard never inherits a sidecar that was left behind under its name
+	_ = os.Remove(p + ".meta")
+	im, err := c32ShardImage(id, name, ver)
 	if err != nil {
 		return err
 	}
-	w.expDocs[c32HashFile(p)] = map[uint32][]string{id: docs}
+	if err := c32WriteFile(p, im.data); err != nil {
+		return err
+	}
+	w.expDocs[im.hash] = map[uint32][]string{id: im.docs}
 	if sidecarName != "" {
-		// format 16 sidecars hold one repository object (see mergeMeta).
-		repos, _, err := index.ReadMetadataPath(p)
-		if err != nil || len(repos) != 1 {
-			return fmt.Errorf("harness: read back %s: %v", p, err)
-		}
-		repos[0].Name = sidecarName
-		repos[0].Rank = uint16(w.r.IntN(1000))
-		tmp, dst, err := index.JsonMarshalRepoMetaTemp(p, repos[0])
-		if err != nil {
-			return err
-		}
-		if err := os.Rename(tmp, dst); err != nil {
+		if err := w.sidecarFor(p, sidecarName); err != nil {
 			return err
 		}
 		w.feat["sidecar"] = true
@@ -394,7 +690,12 @@ func (w *c32World) addSimple(inTrash bool, base string, id uint32, name string, 
 	if err := os.Chtimes(p, mtime, mtime); err != nil {
 		return err
 	}
-	w.note("%s/%s id=%d name=%q docs=%d sidecar_name=%q mtime=now0%+v", where, base, id, name, len(docs), sidecarName, mtime.Sub(w.now0))
+	if base < "compound-" {
+		w.feat["simple-shard-sorts-before-compound"] = true
+	} else {
+		w.feat["simple-shard-sorts-after-compound"] = true
+	}
+	w.note("%s/%s id=%d name=%q version=%d docs=%d sidecar_name=%q mtime=now0%+v", where, base, id, name, ver, len(im.docs), sidecarName, mtime.Sub(w.now0))
 	return nil
 }
 
@@ -436,12 +737,13 @@ func (w *c32World) addTrash(id uint32, name string, forceFresh bool) error {
 	}
 	a := pick()
 	labels := map[string]bool{}
+	ver := w.nextVer(id)
 	for k := 0; k < n; k++ {
 		if k > 0 && w.r.IntN(5) == 0 {
 			a = pick()
 		}
 		labels[a.label] = true
-		if err := w.addSimple(true, c32Base(name, k), id, name, w.now0.Add(-a.d), w.maybeSidecar(name)); err != nil {
+		if err := w.addSimple(true, c32Base(name, k), id, name, ver, w.now0.Add(-a.d), w.maybeSidecar(name)); err != nil {
 			return err
 		}
 		w.feat["trash-"+a.label] = true
@@ -452,56 +754,44 @@ func (w *c32World) addTrash(id uint32, name string, forceFresh bool) error {
 	if n > 1 {
 		w.feat["trash-multi-shard"] = true
 	}
+	w.trashNames[name] = true
+	return nil
+}
+
+// addIndex puts n shards of the repository into the index dir.
+func (w *c32World) addIndex(id uint32, name string, n int, sidecar func(k int) string) error {
+	ver := w.nextVer(id)
+	for k := 0; k < n; k++ {
+		if err := w.addSimple(false, c32Base(name, k), id, name, ver, w.idxTime(), sidecar(k)); err != nil {
+			return err
+		}
+	}
+	w.idxNames[name] = true
 	return nil
 }
 
 // buildCompound merges the members into one compound shard in the index dir and
 // tombstones the members marked so.
 func (w *c32World) buildCompound(members []c32Member) error {
-	tmpd, err := os.MkdirTemp(w.scratch, "members-")
+	ci, err := c32MergedImage(members, w.scratch)
 	if err != nil {
 		return err
 	}
-	defer os.RemoveAll(tmpd)
-	var files []index.IndexFile
-	defer func() {
-		for _, f := range files {
-			f.Close()
-		}
-	}()
-	docs := map[uint32][]string{}
 	var desc []string
-	for i, m := range members {
-		p := filepath.Join(tmpd, fmt.Sprintf("m%d.zoekt", i))
-		d, err := w.writeShard(p, m.id, m.name, m.variant)
-		if err != nil {
-			return err
-		}
-		docs[m.id] = d
-		fh, err := os.Open(p)
-		if err != nil {
-			return err
-		}
-		inf, err := index.NewIndexFile(fh)
-		if err != nil {
-			return err
-		}
-		files = append(files, inf)
-		desc = append(desc, fmt.Sprintf("%d:%s:tomb=%v", m.id, m.name, m.tomb))
+	for _, m := range members {
+		desc = append(desc, fmt.Sprintf("%d:%s:v%d:tomb=%v", m.id, m.name, m.ver, m.tomb))
 	}
-	tmpName, dstName, err := index.Merge(w.dir, files...)
-	if err != nil {
-		return err
-	}
+	dstName := filepath.Join(w.dir, ci.base)
 	if _, err := os.Stat(dstName); err == nil {
 		// same set of member names as an earlier group (compound file names are a
 		// hash of the member names): keep the earlier one only.
-		return os.Remove(tmpName)
+		w.note("compound members=%v dropped: same file name as an earlier group", desc)
+		return nil
 	}
-	if err := os.Rename(tmpName, dstName); err != nil {
+	if err := c32WriteFile(dstName, ci.data); err != nil {
 		return err
 	}
-	w.expDocs[c32HashFile(dstName)] = docs
+	w.expDocs[ci.hash] = ci.docs
 	for _, m := range members {
 		if m.tomb {
 			if err := index.SetTombstone(dstName, m.id); err != nil {
@@ -513,7 +803,7 @@ func (w *c32World) buildCompound(members []c32Member) error {
 	mt := w.idxTime()
 	_ = os.Chtimes(dstName, mt, mt)
 	w.feat["compound"] = true
-	w.note("index/%s compound members=%v", filepath.Base(dstName), desc)
+	w.note("index/%s compound members=%v", ci.base, desc)
 	return nil
 }
 
@@ -524,10 +814,24 @@ type c32KindW struct {
 
 var c32Kinds = []c32KindW{
 	{"simple", 18}, {"multi", 12}, {"compound", 20}, {"ctomb", 8}, {"tombtwo", 2},
-	{"trash", 13}, {"trashidx", 6}, {"trashctomb", 6}, {"renamed", 7}, {"dup", 3}, {"absent", 5}, {"collide", 3},
+	{"trash", 13}, {"trashidx", 6}, {"trashctomb", 6}, {"renamed", 8}, {"dup", 4}, {"absent", 5}, {"collide", 4},
 }
 
-func (w *c32World) pickKind(nComp int) string {
+// c32Needs: does the kind put shard files named after the repository name into
+// the index dir / the trash?
+func c32Needs(kind string) (idx, trash bool) {
+	switch kind {
+	case "simple", "multi", "dup", "renamed":
+		return true, false // ("renamed" is refined later; every refinement puts files named after Name or Alt into the index)
+	case "trash", "trashctomb":
+		return false, true
+	case "trashidx", "collide":
+		return true, true
+	}
+	return false, false
+}
+
+func (w *c32World) pickKind(nComp int, ip c32Ident) string {
 	tot := 0
 	for _, k := range c32Kinds {
 		tot += k.w
@@ -551,91 +855,219 @@ func (w *c32World) pickKind(nComp int) string {
 			kind = "multi"
 		}
 	}
+	// file names are derived from the repository name: a kind only fits while its
+	// names are free (the other id of the same name may hold them already)
+	for try := 0; try < 3; try++ {
+		ni, nt := c32Needs(kind)
+		idxFree, trashFree := !w.idxNames[ip.Name], !w.trashNames[ip.Name]
+		if kind == "collide" {
+			if tw, ok := w.ident(ip.Twin); !ok || w.usedIDs[tw.ID] {
+				kind = "trash"
+				continue
+			}
+		}
+		if (!ni || idxFree) && (!nt || trashFree) {
+			return kind
+		}
+		switch {
+		case trashFree && nComp > 0 && kind == "trashidx":
+			kind = "trashctomb"
+		case trashFree:
+			kind = "trash"
+		case idxFree:
+			kind = "simple"
+		case nComp > 0:
+			kind = "compound"
+		default:
+			kind = "absent"
+		}
+	}
+	return "absent"
+}
+
+// c32MemberVer is the image version of the member of a compound template: the
+// merged image of a template is the same in every directory that uses it.
+const c32MemberVer = 100
+
+var c32MemberKinds = []c32KindW{{"compound", 55}, {"ctomb", 18}, {"trashctomb", 12}, {"renamed-member", 8}, {"dup", 7}}
+
+func (w *c32World) pickMemberKind(ip c32Ident) string {
+	x := w.r.IntN(100)
+	kind := "compound"
+	for _, k := range c32MemberKinds {
+		if x < k.w {
+			kind = k.k
+			break
+		}
+		x -= k.w
+	}
+	switch {
+	case kind == "trashctomb" && w.trashNames[ip.Name], kind == "dup" && w.idxNames[ip.Name]:
+		kind = "compound"
+	}
 	return kind
+}
+
+// pickTemplate: a compound template none of whose repositories is in the directory yet.
+func (w *c32World) pickTemplate() []c32Ident {
+	for try := 0; try < 6; try++ {
+		t := w.templates[w.r.IntN(len(w.templates))]
+		ok := true
+		for _, ip := range t {
+			if w.usedIDs[ip.ID] {
+				ok = false
+			}
+		}
+		if ok {
+			return t
+		}
+	}
+	return nil
+}
+
+// place creates what the kind asks for. join adds a member to a compound group.
+func (w *c32World) place(ip c32Ident, kind string, join func(c32Member), memberVer func() int, everyGroup func(func() c32Member)) error {
+	r := w.r
+	id, name := ip.ID, ip.Name
+	none := func(int) string { return "" }
+	var err error
+	switch kind {
+	case "simple":
+		err = w.addIndex(id, name, 1, func(int) string { return w.maybeSidecar(name) })
+	case "multi":
+		err = w.addIndex(id, name, 2+r.IntN(2), func(int) string { return w.maybeSidecar(name) })
+	case "compound":
+		join(c32Member{id: id, name: name, ver: memberVer()})
+	case "ctomb":
+		join(c32Member{id: id, name: name, tomb: true, ver: memberVer()})
+	case "tombtwo":
+		// tombstoned in every (free-form) compound shard, with different commit dates
+		everyGroup(func() c32Member { return c32Member{id: id, name: name, tomb: true, ver: memberVer()} })
+	case "trash":
+		err = w.addTrash(id, name, false)
+	case "trashidx":
+		if err = w.addTrash(id, name, false); err == nil {
+			err = w.addIndex(id, name, 1, func(int) string { return w.maybeSidecar(name) })
+		}
+	case "trashctomb":
+		if err = w.addTrash(id, name, r.IntN(2) == 0); err == nil {
+			join(c32Member{id: id, name: name, tomb: true, ver: memberVer()})
+		}
+	case "renamed-two-files":
+		other := ip.Alt
+		if err = w.addIndex(id, name, 1, none); err == nil {
+			err = w.addIndex(id, other, 1, func(int) string { return w.maybeSidecar(other) })
+		}
+		w.feat["renamed-two-files"] = true
+	case "renamed-by-sidecar":
+		// multi-shard repository, one shard renamed through its sidecar only
+		other, which := ip.Alt, r.IntN(2)
+		err = w.addIndex(id, name, 2, func(k int) string {
+			if k == which {
+				return other
+			}
+			return ""
+		})
+		w.feat["renamed-by-sidecar"] = true
+	case "renamed-member":
+		// old name inside a compound shard, new name as 1-2 simple shards
+		other := ip.Alt
+		join(c32Member{id: id, name: name, ver: memberVer()})
+		err = w.addIndex(id, other, 1+r.IntN(2), none)
+		w.feat["renamed-compound-and-simple"] = true
+		if c32Base(other, 0) < "compound-" {
+			w.feat["renamed-compound-and-simple-sorting-first"] = true
+		}
+	case "dup":
+		// alive both in simple shards and in a compound shard (same name): the
+		// state between a re-index and the tombstoning of the merged copy.
+		join(c32Member{id: id, name: name, ver: memberVer()})
+		err = w.addIndex(id, name, 1+r.IntN(2), none)
+		if c32Base(name, 0) < "compound-" {
+			w.feat["dup-simple-sorting-first"] = true
+		}
+	case "absent":
+		// known to the assignment only
+	case "collide":
+		// two repository ids with one name: the older one sits in the trash
+		// under the shard file names the newer one uses in the index.
+		if err = w.addTrash(id, name, true); err == nil {
+			tw, _ := w.ident(ip.Twin)
+			w.addRepo(tw, "collide-partner")
+			w.feat["two-ids-one-name"] = true
+			sc := none
+			if r.IntN(4) == 0 {
+				sc = func(int) string { return name }
+			}
+			err = w.addIndex(tw.ID, name, 1+r.IntN(2), sc)
+		}
+	default:
+		err = fmt.Errorf("harness: unknown kind %q", kind)
+	}
+	return err
 }
 
 func (w *c32World) generate() error {
 	r := w.r
-	nRepos := 2 + r.IntN(8)
+	nRepos := 3 + r.IntN(8)
 	nComp := []int{0, 1, 1, 1, 2, 2}[r.IntN(6)]
 	groups := make([][]c32Member, nComp)
-	join := func(m c32Member) int {
-		g := r.IntN(nComp)
-		groups[g] = append(groups[g], m)
-		return g
-	}
-	for i := 0; i < nRepos; i++ {
-		id := w.newID()
-		name := w.nameOf(id)
-		kind := w.pickKind(nComp)
-		repo := &c32Repo{ID: id, Name: name, Kind: kind}
-		w.repos = append(w.repos, repo)
-		w.feat["kind-"+kind] = true
-		var err error
-		switch kind {
-		case "simple":
-			err = w.addSimple(false, c32Base(name, 0), id, name, w.idxTime(), w.maybeSidecar(name))
-		case "multi":
-			n := 2 + r.IntN(2)
-			for k := 0; k < n && err == nil; k++ {
-				err = w.addSimple(false, c32Base(name, k), id, name, w.idxTime(), w.maybeSidecar(name))
-			}
-		case "compound":
-			join(c32Member{id: id, name: name, variant: "member"})
-		case "ctomb":
-			join(c32Member{id: id, name: name, tomb: true, variant: "member"})
-		case "tombtwo":
-			// tombstoned in every compound shard, with different commit dates
-			for g := range groups {
-				groups[g] = append(groups[g], c32Member{id: id, name: name, tomb: true, variant: fmt.Sprintf("member%d", g)})
-			}
-		case "trash":
-			err = w.addTrash(id, name, false)
-		case "trashidx":
-			if err = w.addTrash(id, name, false); err == nil {
-				err = w.addSimple(false, c32Base(name, 0), id, name, w.idxTime(), w.maybeSidecar(name))
-			}
-		case "trashctomb":
-			if err = w.addTrash(id, name, r.IntN(2) == 0); err == nil {
-				join(c32Member{id: id, name: name, tomb: true, variant: "member"})
-			}
-		case "renamed":
-			other := name + "-renamed"
-			switch v := r.IntN(3); {
-			case v == 0:
-				// two shard files under the two names
-				if err = w.addSimple(false, c32Base(name, 0), id, name, w.idxTime(), ""); err == nil {
-					err = w.addSimple(false, c32Base(other, 0), id, other, w.idxTime(), w.maybeSidecar(other))
-				}
-				w.feat["renamed-two-files"] = true
-			case v == 1 || nComp == 0:
-				// multi-shard repository, one shard renamed through its sidecar only
-				if err = w.addSimple(false, c32Base(name, 0), id, name, w.idxTime(), other); err == nil {
-					err = w.addSimple(false, c32Base(name, 1), id, name, w.idxTime(), "")
-				}
-				w.feat["renamed-by-sidecar"] = true
-			default:
-				// old name inside a compound shard, new name as a simple shard
-				join(c32Member{id: id, name: name, variant: "member"})
-				err = w.addSimple(false, c32Base(other, 0), id, other, w.idxTime(), "")
-				w.feat["renamed-compound-and-simple"] = true
-			}
-		case "dup":
-			// alive both in a simple and in a compound shard (same name): the state
-			// between a re-index and the tombstoning of the merged copy.
-			join(c32Member{id: id, name: name, variant: "member"})
-			err = w.addSimple(false, c32Base(name, 0), id, name, w.idxTime(), "")
-		case "absent":
-			// known to the assignment only
-		case "collide":
-			// two repository ids with one name: the older one sits in the trash
-			// under the shard file name the newer one uses in the index.
-			if err = w.addTrash(id, name, true); err == nil {
-				id2 := w.newID()
-				w.repos = append(w.repos, &c32Repo{ID: id2, Name: name, Kind: "collide-partner"})
-				err = w.addSimple(false, c32Base(name, 0), id2, name, w.idxTime(), "")
+	var free []int // groups without a template: any repository may join them
+	for g := 0; g < nComp; g++ {
+		var tpl []c32Ident
+		if r.IntN(100) < 85 {
+			tpl = w.pickTemplate()
+		}
+		if tpl == nil {
+			free = append(free, g)
+			continue
+		}
+		w.feat["compound-from-template"] = true
+		for _, ip := range tpl {
+			w.usedIDs[ip.ID] = true
+		}
+		for _, ip := range tpl {
+			kind := w.pickMemberKind(ip)
+			w.addRepo(ip, kind)
+			w.feat["kind-"+kind] = true
+			err := w.place(ip, kind, func(m c32Member) { groups[g] = append(groups[g], m) }, func() int { return c32MemberVer }, nil)
+			if err != nil {
+				return err
 			}
 		}
+	}
+	join := func(m c32Member) {
+		g := free[r.IntN(len(free))]
+		groups[g] = append(groups[g], m)
+	}
+	extra := nRepos - len(w.repos)
+	if extra < 1 {
+		extra = 1
+	}
+	for i := 0; i < extra; i++ {
+		ip := w.pickIdent()
+		id := ip.ID
+		kind := w.pickKind(len(free), ip)
+		if kind == "renamed" {
+			switch v := r.IntN(3); {
+			case v == 0:
+				kind = "renamed-two-files"
+			case v == 1 || len(free) == 0:
+				kind = "renamed-by-sidecar"
+			default:
+				kind = "renamed-member"
+			}
+		}
+		w.addRepo(ip, kind)
+		w.feat["kind-"+kind] = true
+		if tw := w.repo(ip.Twin); tw != nil {
+			w.feat["two-ids-one-name"] = true
+		}
+		err := w.place(ip, kind, join, func() int { return w.nextVer(id) }, func(mk func() c32Member) {
+			for _, g := range free {
+				groups[g] = append(groups[g], mk())
+			}
+		})
 		if err != nil {
 			return err
 		}
@@ -647,6 +1079,9 @@ func (w *c32World) generate() error {
 		if err := w.buildCompound(g); err != nil {
 			return err
 		}
+	}
+	if r.IntN(5) == 0 {
+		w.addOrphanSidecar(nil)
 	}
 	return w.addTmp()
 }
@@ -683,6 +1118,178 @@ func (w *c32World) addTmp() error {
 		w.note("index/%s/ directory named *.tmp", n)
 	}
 	return nil
+}
+
+// addOrphanSidecar leaves a <shard>.zoekt.meta without its shard in the index
+// dir or the trash (what an interrupted move of shard + sidecar leaves behind:
+// the shard file is renamed first). It describes the repository itself or the
+// other id of the same name. Returns a description ("" = nothing written).
+func (w *c32World) addOrphanSidecar(log *[]string) string {
+	r := w.r
+	if len(w.repos) == 0 {
+		return ""
+	}
+	rp := w.repos[r.IntN(len(w.repos))]
+	id := rp.ID
+	if tw, ok := w.ident(rp.Twin); ok && r.IntN(2) == 0 {
+		id = tw.ID
+	}
+	dir, where := w.dir, "index"
+	if r.IntN(2) == 0 {
+		dir, where = w.trash, ".trash"
+	}
+	p := filepath.Join(dir, c32Base(rp.Name, r.IntN(2)))
+	if _, err := os.Stat(p); err == nil {
+		return ""
+	}
+	if _, err := os.Stat(p + ".meta"); err == nil {
+		return ""
+	}
+	if err := os.MkdirAll(dir, 0o755); err != nil {
+		return ""
+	}
+	tmp, dst, err := index.JsonMarshalRepoMetaTemp(p, &zoekt.Repository{ID: id, Name: rp.Name, Rank: uint16(r.IntN(1000))})
+	if err != nil {
+		return ""
+	}
+	if err := os.Rename(tmp, dst); err != nil {
+		return ""
+	}
+	w.feat["orphan-sidecar"] = true
+	d := fmt.Sprintf("%s/%s.meta orphaned sidecar describing id=%d name=%q", where, filepath.Base(p), id, rp.Name)
+	if log != nil {
+		*log = append(*log, d)
+	} else {
+		w.note("%s", d)
+	}
+	return d
+}
+
+// evolve is what happens between two cleanups: the assignment changes, and the
+// indexer works on the directory. cur is the state after the previous cleanup.
+// It returns a log of what it did (part of the witness) and whether the
+// directory was touched.
+func (w *c32World) evolve(round int, now time.Time, assigned map[uint32]bool, cur *c32Snap, rec *kit.Rec) (acts []string, touched bool) {
+	r := w.r
+	flip := func(id uint32) {
+		if assigned[id] {
+			delete(assigned, id)
+		} else {
+			assigned[id] = true
+		}
+	}
+	for _, rp := range w.repos {
+		if r.Float64() < rp.Flip {
+			flip(rp.ID)
+		}
+	}
+	// hand-over between two ids of one name (repository deleted and re-created)
+	for _, rp := range w.repos {
+		tw := w.repo(rp.Twin)
+		if tw == nil || rp.ID > tw.ID || r.IntN(4) != 0 {
+			continue
+		}
+		if assigned[rp.ID] == assigned[tw.ID] {
+			delete(assigned, rp.ID)
+			assigned[tw.ID] = true
+		} else {
+			flip(rp.ID)
+			flip(tw.ID)
+		}
+		rec.Count("handover_between_ids_of_one_name", 1)
+	}
+	// a new id arrives under the name of a repository of this directory
+	if r.IntN(6) == 0 {
+		var c []c32Ident
+		for _, rp := range w.repos {
+			if ip, ok := w.ident(rp.Twin); ok && !w.usedIDs[ip.ID] {
+				c = append(c, ip)
+			}
+		}
+		if len(c) > 0 {
+			ip := c[r.IntN(len(c))]
+			w.addRepo(ip, "arrived")
+			assigned[ip.ID] = true
+			if r.IntN(3) != 0 {
+				delete(assigned, ip.Twin)
+			}
+			acts = append(acts, fmt.Sprintf("new repository id=%d takes the name %q of id=%d", ip.ID, ip.Name, ip.Twin))
+			rec.Count("new_id_arrives_under_used_name", 1)
+		}
+	}
+	// the indexer: assigned repositories that are not searchable get indexed
+	written := map[string]bool{}
+	for _, rp := range w.repos {
+		if !assigned[rp.ID] || len(cur.aliveIdx[rp.ID]) > 0 || r.IntN(2) != 0 {
+			continue
+		}
+		n := 1 + r.IntN(2)
+		free := true
+		for k := 0; k < n; k++ {
+			b := c32Base(rp.Name, k)
+			if cur.Index[b] != nil || written[b] {
+				free = false
+			}
+		}
+		if !free {
+			continue
+		}
+		ver := w.nextVer(rp.ID)
+		sc := w.maybeSidecar(rp.Name)
+		for k := 0; k < n; k++ {
+			b := c32Base(rp.Name, k)
+			if err := w.addSimple(false, b, rp.ID, rp.Name, ver, now, sc); err != nil {
+				rec.Violation("harness/build", err.Error(), nil)
+				return acts, true
+			}
+			written[b] = true
+			acts = append(acts, fmt.Sprintf("indexed index/%s id=%d version=%d sidecar=%v", b, rp.ID, ver, sc != ""))
+		}
+		touched = true
+		rec.Count("indexed_between_rounds", 1)
+		if len(cur.aliveTrash[rp.ID]) > 0 {
+			rec.Count("indexed_between_rounds_while_in_trash", 1)
+		}
+		if cur.Trash[c32Base(rp.Name, 0)] != nil && !cur.Trash[c32Base(rp.Name, 0)].alive(rp.ID) {
+			rec.Count("indexed_between_rounds_under_a_file_name_held_in_trash_by_another_id", 1)
+		}
+	}
+	// metadata-only update: every shard of the repository gets a sidecar
+	for _, rp := range w.repos {
+		fs := cur.aliveIdx[rp.ID]
+		if len(fs) == 0 || len(cur.namesIdx[rp.ID]) != 1 || r.IntN(5) != 0 {
+			continue
+		}
+		simple := true
+		for _, f := range fs {
+			if f.Compound || written[f.Base] {
+				simple = false
+			}
+		}
+		if !simple {
+			continue
+		}
+		for _, f := range fs {
+			if err := w.sidecarFor(filepath.Join(w.dir, f.Base), c32AnyName(cur.namesIdx[rp.ID])); err != nil {
+				rec.Violation("harness/build", err.Error(), nil)
+				return acts, true
+			}
+			acts = append(acts, fmt.Sprintf("metadata-only update: sidecar for index/%s", f.Base))
+		}
+		touched = true
+		w.feat["sidecar"] = true
+		rec.Count("metadata_updated_between_rounds", 1)
+	}
+	if r.IntN(4) == 0 {
+		_ = w.addTmp()
+		touched = true
+	}
+	if r.IntN(8) == 0 {
+		if w.addOrphanSidecar(&acts) != "" {
+			touched = true
+		}
+	}
+	return acts, touched
 }
 
 // ---------------------------------------------------------------------------
@@ -728,7 +1335,7 @@ func c32OwnedByAssigned(f *c32File, assigned map[uint32]bool, except uint32) boo
 func c32AnyOld(files []*c32File, now time.Time) bool {
 	minAge := now.Add(-24 * time.Hour)
 	for _, f := range files {
-		if f.MTime.Before(minAge) {
+		if f.since().Before(minAge) {
 			return true
 		}
 	}
@@ -817,6 +1424,40 @@ func c32Judge(B, A *c32Snap, assigned map[uint32]bool, now time.Time, merging bo
 			continue
 		}
 		tf := B.aliveTrash[id]
+		if hf := B.hiddenTrash[id]; len(tf) == 0 && len(hf) > 0 {
+			// The trash holds shards that were built for this repository, but their
+			// metadata does not say so (a sidecar of another repository lies next to
+			// them). The repository is in the trash all the same: the restore clause
+			// applies to it like to any other trashed repository.
+			restored, gone := 0, 0
+			for _, f := range hf {
+				if g := c32HasFile(A.Index, f); g != nil && g.alive(id) {
+					restored++
+				}
+				if c32HasFile(A.Index, f) == nil && c32HasFile(A.Trash, f) == nil {
+					gone++
+				}
+			}
+			switch {
+			case c32AnyOld(hf, now):
+				j.ev["assigned_unrecognisable_old_trash"]++
+			case c32NameConflict(hf, B) && restored == 0 && gone == len(hf):
+				j.ev["assigned_unrecognisable_trash_deleted_file_name_conflict"]++
+			case restored == len(hf):
+				j.keepObl++
+				j.ev["assigned_unrecognisable_trash_restored"]++
+			default:
+				j.keepObl++
+				var ls []string
+				for _, f := range hf {
+					ls = append(ls, f.line(".trash", true))
+				}
+				add("assigned repo not restored from trash/trashed shard carries the sidecar of another repository",
+					"assigned repository %d: its shards are in .trash (all younger than 24 h) but labelled as another repository by the sidecar next to them, and %d of %d are searchable under id %d after cleanup: %s",
+					id, restored, len(hf), id, strings.Join(ls, "; "))
+			}
+			continue
+		}
 		if len(tf) == 0 {
 			if len(B.tombIdx[id]) > 0 {
 				if len(A.aliveIdx[id]) > 0 {
@@ -989,8 +1630,8 @@ func c32Judge(B, A *c32Snap, assigned map[uint32]bool, now time.Time, merging bo
 					who = "assigned"
 				}
 				add("trash entry younger than 24h permanently deleted/"+who,
-					"trash entry %s of repository %d (mtime %s, now %s, age %s) is gone from .trash and index although no indexed copy existed", f.Base, id,
-					f.MTime.UTC().Format(time.RFC3339), now.UTC().Format(time.RFC3339), now.Sub(f.MTime))
+					"trash entry %s of repository %d (mtime %s, in the trash since %s, now %s, age %s) is gone from .trash and index although no indexed copy existed", f.Base, id,
+					f.MTime.UTC().Format(time.RFC3339), f.since().UTC().Format(time.RFC3339), now.UTC().Format(time.RFC3339), now.Sub(f.since()))
 			}
 		}
 	}
@@ -1031,7 +1672,7 @@ func c32AnyName(m map[string]bool) string {
 // c32SearchShards opens every shard of the index dir through the production
 // reader and checks that alive repositories return exactly the documents that
 // were written, and tombstoned ones none.
-func (w *c32World) searchShards(A *c32Snap) []c32Finding {
+func (w *c32World) searchShards(B, A *c32Snap) []c32Finding {
 	var out []c32Finding
 	q := &query.Substring{Pattern: c32Marker, Content: true}
 	for _, b := range c32SortedBases(A.Index) {
@@ -1043,6 +1684,15 @@ func (w *c32World) searchShards(A *c32Snap) []c32Finding {
 		exp, ok := w.expDocs[f.Hash]
 		if !ok {
 			out = append(out, c32Finding{"harness/unknown shard content", f.line("index", false)})
+			continue
+		}
+		if f.mislabelled() {
+			origin := "was in the index"
+			if c32HasFile(B.Trash, f) != nil {
+				origin = "restored from trash"
+			}
+			out = append(out, c32Finding{"index shard labelled as another repository after cleanup/" + origin,
+				fmt.Sprintf("%s: the shard was built for repositories %v, its metadata (shard + sidecar) now says %s", f.Base, f.Content, f.line("index", false))})
 			continue
 		}
 		fh, err := os.Open(filepath.Join(w.dir, b))
@@ -1061,7 +1711,12 @@ func (w *c32World) searchShards(A *c32Snap) []c32Finding {
 			out = append(out, c32Finding{"index shard unreadable after cleanup", f.Base + ": " + err.Error()})
 			continue
 		}
-		res, err := s.Search(context.Background(), q, &zoekt.SearchOptions{})
+		var res *zoekt.SearchResult
+		if msg, stack, panicked := kit.Guard(func() { res, err = s.Search(context.Background(), q, &zoekt.SearchOptions{}) }); panicked {
+			s.Close()
+			out = append(out, c32Finding{"search panics on an index shard after cleanup/" + kit.PanicSite(stack), f.line("index", false) + ": " + msg})
+			continue
+		}
 		if err != nil {
 			s.Close()
 			out = append(out, c32Finding{"search error after cleanup", f.Base + ": " + err.Error()})
@@ -1107,7 +1762,12 @@ func (w *c32World) searchDir(A *c32Snap) []c32Finding {
 		return []c32Finding{{"directory searcher failed after cleanup", err.Error()}}
 	}
 	defer ds.Close()
-	res, err := ds.Search(context.Background(), &query.Substring{Pattern: c32Marker, Content: true}, &zoekt.SearchOptions{})
+	var res *zoekt.SearchResult
+	if msg, stack, panicked := kit.Guard(func() {
+		res, err = ds.Search(context.Background(), &query.Substring{Pattern: c32Marker, Content: true}, &zoekt.SearchOptions{})
+	}); panicked {
+		return []c32Finding{{"search panics on the directory after cleanup/" + kit.PanicSite(stack), msg}}
+	}
 	if err != nil {
 		return []c32Finding{{"search error after cleanup", "directory searcher: " + err.Error()}}
 	}
@@ -1157,35 +1817,63 @@ func TestVerif_C32(t *testing.T) {
 	defer c32Quiet()()
 	n := rec.N(300, 4000)
 	// the repository identities of this run (shard images are cached per identity)
-	pr := rec.Rand(32)
-	c32ImageRnd = rec.Rand(33)
-	var pool []c32Repo
-	seen := map[uint32]bool{}
-	for len(pool) < 32 {
-		id := uint32(1 + pr.IntN(4000))
-		if seen[id] {
-			continue
+	pool := c32MakePool(rec.Rand(32))
+	for _, ip := range pool {
+		if c32Base(ip.Name, 0) < "compound-" {
+			rec.Count("identities_sorting_before_compound", 1)
+		} else {
+			rec.Count("identities_sorting_after_compound", 1)
 		}
-		seen[id] = true
-		name := fmt.Sprintf("r%d", id)
-		if pr.IntN(3) == 0 {
-			name = fmt.Sprintf("gh.example.com/org%d/r%d", pr.IntN(3), id)
+		if ip.Twin != 0 {
+			rec.Count("identities_sharing_their_name_with_another_id", 1)
 		}
-		pool = append(pool, c32Repo{ID: id, Name: name})
+	}
+	// compound templates: member lists that many directories share (a merge costs
+	// as much as 40 cleanups); what happens to each member differs per directory
+	tr := rec.Rand(34)
+	var templates [][]c32Ident
+	for len(templates) < 24 {
+		var t []c32Ident
+		names := map[string]bool{}
+		for n := 2 + tr.IntN(3); len(t) < n; {
+			ip := pool[tr.IntN(len(pool))]
+			if !names[ip.Name] {
+				names[ip.Name] = true
+				t = append(t, ip)
+			}
+		}
+		templates = append(templates, t)
+	}
+	jobs := make(chan int)
+	var wg sync.WaitGroup
+	for k := 0; k < c32Workers; k++ {
+		wg.Add(1)
+		go func() {
+			defer wg.Done()
+			for ci := range jobs {
+				c32Case(rec, ci, pool, templates)
+			}
+		}()
 	}
 	for ci := 0; ci < n; ci++ {
-		c32Case(rec, ci, pool)
+		jobs <- ci
 	}
+	close(jobs)
+	wg.Wait()
+	c32ImgMu.Lock()
 	rec.Count("shard_images_built", int64(len(c32Images)))
+	rec.Count("compound_images_built", int64(len(c32Compounds)))
+	c32ImgMu.Unlock()
 }
 
-var c32Steps = []time.Duration{0, time.Minute, time.Hour, 6 * time.Hour, 23 * time.Hour, 24 * time.Hour, 24*time.Hour + time.Second, 25 * time.Hour, 49 * time.Hour}
+var c32Steps = []time.Duration{0, time.Minute, time.Hour, time.Hour, 6 * time.Hour, 6 * time.Hour, 23 * time.Hour, 24 * time.Hour, 24*time.Hour + time.Second, 25 * time.Hour, 49 * time.Hour}
 
-func c32Case(rec *kit.Rec, ci int, pool []c32Repo) {
+func c32Case(rec *kit.Rec, ci int, pool []c32Ident, templates [][]c32Ident) {
 	r := rec.Rand(uint64(3200000 + ci))
 	dir := filepath.Join(rec.Work, fmt.Sprintf("c%06d", ci))
-	w := &c32World{r: r, pool: pool, dir: filepath.Join(dir, "index"), scratch: filepath.Join(dir, "scratch"),
-		feat: map[string]bool{}, expDocs: map[string]map[uint32][]string{}, usedIDs: map[uint32]bool{}}
+	w := &c32World{r: r, pool: pool, templates: templates, dir: filepath.Join(dir, "index"), scratch: filepath.Join(dir, "scratch"),
+		feat: map[string]bool{}, expDocs: map[string]map[uint32][]string{}, born: map[string]time.Time{}, usedIDs: map[uint32]bool{},
+		ver: map[uint32]int{}, idxNames: map[string]bool{}, trashNames: map[string]bool{}}
 	w.trash = filepath.Join(w.dir, ".trash")
 	w.now0 = time.Date(2024, 5, 1, 12, 0, 0, 0, time.UTC).Add(time.Duration(r.IntN(1e6)) * time.Second)
 	defer os.RemoveAll(dir)
@@ -1203,7 +1891,7 @@ func c32Case(rec *kit.Rec, ci int, pool []c32Repo) {
 		return
 	}
 	merging := r.IntN(2) == 0
-	rounds := 1 + r.IntN(4)
+	rounds := 1 + r.IntN(8)
 
 	// the assignment
 	p := []float64{0, .25, .25, .5, .5, .5, .5, .75, .75, .75, 1}[r.IntN(11)]
@@ -1216,67 +1904,57 @@ func c32Case(rec *kit.Rec, ci int, pool []c32Repo) {
 	for k := r.IntN(3); k > 0; k-- {
 		assigned[uint32(100000+r.IntN(1000))] = true // never seen by this server
 	}
-	var feats []string
-	for f := range w.feat {
-		feats = append(feats, f)
-		rec.Count("dirs_with_"+f, 1)
-		rec.Seen("dir_features", f)
-	}
-	sort.Strings(feats)
 	rec.Count("dirs", 1)
 	if merging {
 		rec.Count("dirs_shard_merging_on", 1)
 	} else {
 		rec.Count("dirs_shard_merging_off", 1)
 	}
+	counted := map[string]bool{}
 
 	now := w.now0
 	var history []any
 	var last *c32Snap // snapshot after the previous round, valid while the directory was not touched
+	badRounds := 0
 	for k := 0; k < rounds; k++ {
+		var acts []string
 		if k > 0 {
 			now = now.Add(c32Steps[r.IntN(len(c32Steps))])
-			for _, rp := range w.repos {
-				if r.IntN(3) == 0 {
-					if assigned[rp.ID] {
-						delete(assigned, rp.ID)
-					} else {
-						assigned[rp.ID] = true
-					}
-				}
-			}
-			// the indexer may have produced a fresh shard for a repository in between
-			if r.IntN(5) == 0 {
-				rp := w.repos[r.IntN(len(w.repos))]
-				base := c32Base(rp.Name, 0)
-				w.generation = fmt.Sprintf("round%d", k)
-				if _, err := os.Stat(filepath.Join(w.dir, base)); err != nil && last != nil && len(last.aliveIdx[rp.ID]) == 0 {
-					if err := w.addSimple(false, base, rp.ID, rp.Name, now, ""); err == nil {
-						rec.Count("reindexed_between_rounds", 1)
-					}
-					last = nil
-				}
-			}
-			if r.IntN(4) == 0 {
-				_ = w.addTmp()
+			var touched bool
+			acts, touched = w.evolve(k, now, assigned, last, rec)
+			if touched {
 				last = nil
 			}
 		}
+		var feats []string
+		for f := range w.feat {
+			feats = append(feats, f)
+			if !counted[f] {
+				counted[f] = true
+				rec.Count("dirs_with_"+f, 1)
+				rec.Seen("dir_features", f)
+			}
+		}
+		sort.Strings(feats)
 		ids := c32SortedIDs(assigned)
 		r.Shuffle(len(ids), func(i, j int) { ids[i], ids[j] = ids[j], ids[i] })
 
 		B := last
 		if B == nil {
-			B = c32TakeSnap(w.dir)
+			B = w.snap()
 		}
 		msg, stack, panicked := kit.Guard(func() { cleanup(w.dir, ids, now, merging) })
-		A := c32TakeSnap(w.dir)
-		step := map[string]any{"round": k, "now": now.UTC().Format(time.RFC3339Nano), "assigned": c32SortedIDs(assigned), "shardMerging": merging,
+		A := w.snap()
+		w.observeTrash(B, A, now)
+		step := map[string]any{"round": k, "now": now.UTC().Format(time.RFC3339Nano), "assigned": c32SortedIDs(assigned), "assigned_in_call_order": ids, "shardMerging": merging,
 			"before": B.listing(), "after": A.listing()}
+		if len(acts) > 0 {
+			step["between_rounds"] = acts
+		}
 		history = append(history, step)
 		witness := func() any {
 			return map[string]any{"case": ci, "now0": w.now0.UTC().Format(time.RFC3339Nano), "recipe": w.recipe, "rounds": history,
-				"replay": "build the directory from recipe (mtimes relative to now0), then call cleanup(dir, assigned, now, shardMerging) per round"}
+				"replay": "build the directory from recipe (mtimes relative to now0), then per round: apply between_rounds, call cleanup(dir, assigned, now, shardMerging)"}
 		}
 		if panicked {
 			rec.Violation("panic/"+kit.PanicSite(stack)+"/"+kit.MsgClass(msg), msg+"\n"+stack, witness())
@@ -1284,12 +1962,13 @@ func c32Case(rec *kit.Rec, ci int, pool []c32Repo) {
 		}
 		j := c32Judge(B, A, assigned, now, merging)
 		findings := j.findings
-		findings = append(findings, w.searchShards(A)...)
+		findings = append(findings, w.searchShards(B, A)...)
 		if len(findings) == 0 {
 			// (4) a second identical cleanup (same assignment, same now) is judged by
 			// the same clauses and must change nothing.
 			_, _, _ = kit.Guard(func() { cleanup(w.dir, ids, now, merging) })
-			A2 := c32TakeSnap(w.dir)
+			A2 := w.snap()
+			w.observeTrash(A, A2, now)
 			l1, l2 := A.listing(), A2.listing()
 			j2 := c32Judge(A, A2, assigned, now, merging)
 			findings = append(findings, j2.findings...)
@@ -1330,9 +2009,37 @@ func c32Case(rec *kit.Rec, ci int, pool []c32Repo) {
 		})
 		for _, f := range findings {
 			rec.Violation(f.sig, f.what, witness())
+			if strings.HasPrefix(f.sig, "harness/") {
+				return
+			}
 		}
 		if len(findings) > 0 {
-			return // later rounds would only repeat the consequences
+			// Every round is judged on its own pair of snapshots, so the history may go
+			// on from whatever state the directory is in now; a directory that keeps
+			// producing findings is given up.
+			rec.Count("rounds_with_findings", 1)
+			if badRounds++; badRounds >= 3 {
+				return
+			}
+		}
+	}
+}
+
+// observeTrash keeps the ground truth of when a file entered the trash: a file
+// that was in the index before the cleanup and is in the trash afterwards was
+// trashed at `now`. A trash entry whose mtime changed falls back to its mtime.
+func (w *c32World) observeTrash(B, A *c32Snap, now time.Time) {
+	for _, f := range A.Trash {
+		key := c32BornKey(f)
+		switch g := c32HasFile(B.Trash, f); {
+		case g != nil && g.MTime.Equal(f.MTime):
+			// stayed
+		case g == nil && c32HasFile(B.Index, f) != nil:
+			w.born[key] = now
+			f.Born = now
+		default:
+			delete(w.born, key)
+			f.Born = time.Time{}
 		}
 	}
 }
